@@ -22,6 +22,8 @@ HOSTILE += [
     'data:image/png;base64,AAAA" onerror="alert(1)', "javascript:alert('1')", 'http://a/?x=1&y="2"<', "mailto:a@b?subject=<x>&body=\r\n",
     "#frag\"><script>", "//cdn/x.js'\n",
 ]
+# C1 controls (a numeric reference to one of these does NOT decode to the same character) and neighbours
+HOSTILE += ["caf\u00e9 \u0085 next", "\u0080\u009f<", "\u0091q\u0092 & \u00a0"]
 LONG_HOSTILE = ["<p class=\"c\">Tom & 'Jerry'</p>\n" * 12, "x" * 199 + "<&>\"'", ("ab&cd<ef>" * 40)]
 META = "&<>\"'\r\n;#/= \t!-"
 
